@@ -401,11 +401,12 @@ def replay_history(ck, rp, hist, origin):
         alone = rp.call(impl.Validator(), c)
         subject = c.get("doc") or c.get("name")
         if not rp.agrees(alone, exp):
-            # not a matter of history: the entry probes / the schema table name the entries
-            ck.violation("C09|history|wrong-alone|%s|%s" % (call_txt(c), subject),
-                         "%s on %s answers %s on a fresh Validator, the contract says %s (%s)" % (
-                             call_txt(c), subject, brief(alone), brief(exp), "; ".join(vs_entry_classes(rp.vs, c, alone, exp)[:4])),
-                         {"kind": "history", "history": [step], "step": 0, "origin": origin, "got": alone})
+            # not a matter of history: same signatures as the entry probes / the schema table, which
+            # enumerate these cases deterministically (a repeated signature is reported once)
+            for sg in alone_signatures(ck, rp, c, alone, exp):
+                ck.violation(sg, "%s on %s answers %s on a fresh Validator, the contract says %s" % (
+                                 call_txt(c), subject, brief(alone), brief(exp)),
+                             {"kind": "history", "history": [step], "step": 0, "origin": origin, "got": alone})
             continue
         culprit = "several"
         for j in range(i - 1, -1, -1):
@@ -420,6 +421,29 @@ def replay_history(ck, rp, hist, origin):
                      {"kind": "history", "history": hist[: i + 1], "step": i, "origin": origin, "got": got})
         return False
     return True
+
+
+def alone_signatures(ck, rp, c, got, exp):
+    vs = rp.vs
+    if "reject" in exp:
+        d = rp.docs[c["doc"]]
+        suffix = "|mappyfile.validate" if c["op"] == "mod_validate" else ""
+        if d["fault"]:
+            return ["C09|fault|%s.%s|not-reported|%s" % (d["holder"], d["key"], "none" if c["v"] == NOV else "versioned")]
+        where = "%s|%s" % (d["entry"], versions.vclass(vs.by_id[d["entry"]], c["v"]))
+        if d["via_alt"]:
+            where += "|via-alt|ctx=%s" % d["ctx"]
+        return ["C09|accept|" + where + suffix]
+    out = []
+    for cls in vs_entry_classes(vs, c, got, exp) or ["?"]:
+        base = "C09|schema|get_versioned|%s|%s" % (c["name"], cls)
+        if c["op"] in ("export", "mod_export") and not (
+                base in ck.violations or any(k.get("status") == "known" and common.match_sig(k["signature"], base) for k in ck.known)):
+            base = "C09|schema|%s|%s|%s" % (c["op"], c["name"], cls)      # seen on the export path only
+        elif c["op"] == "mod_create":
+            base = "C09|schema|mod_create|%s|%s" % (c["name"], cls)
+        out.append(base)
+    return out
 
 
 def vs_entry_classes(vs, c, got, exp):
